@@ -98,12 +98,13 @@ def r1_kinds(chk):
     for rel, cname in ((SYMTAB, 'SymtableCodeGen'), (INTER, 'IntermediateCodeGen')):
         o, fn = model.cls(rel, cname).find_method('genCode')
         loops = [n for n in walk_no_nested(fn) if isinstance(n, ast.For) and 'declarations' in norm(n.iter)]
-        ok = len(loops) == 1 and any(isinstance(c, ast.Call) and 'self.handlersTable[declr[0]]' in norm(c.func)
+        dv = loops[0].target.id if len(loops) == 1 and isinstance(loops[0].target, ast.Name) else '?'
+        ok = len(loops) == 1 and any(isinstance(c, ast.Call) and 'self.handlersTable[%s[0]]' % dv in norm(c.func)
                                      for c in walk_no_nested(loops[0]))
         if ok:
             skips = [n for n in walk_no_nested(loops[0]) if isinstance(n, (ast.Continue, ast.Break, ast.Return))]
             tests = [norm(n.test) for n in walk_no_nested(loops[0]) if isinstance(n, ast.If)]
-            ok = not skips and tests == ['declr']
+            ok = not skips and tests == [dv]
         chk.ob('C03.R1', '%s.genCode/dispatches-every-declaration' % cname, ok, where(o.mod, fn),
                'every non-empty declaration must be dispatched through handlersTable')
 
@@ -346,9 +347,12 @@ def r7_json_document(chk):
     o, fn = model.cls('pysmi/codegen/jsondoc.py', 'JsonCodeGen').find_method('genCode')
     calls = [c for c in walk_no_nested(fn) if isinstance(c, ast.Call) and isinstance(c.func, ast.Attribute) and
              c.func.attr == 'render']
-    ok = len(calls) == 1 and [k.arg for k in calls[0].keywords] == ['mib'] and norm(calls[0].keywords[0].value) == 'context'
+    b0 = common.pmatch([s for s in fn.body if isinstance(s, ast.Assign)][0],
+                       '$mi, $ctx = IntermediateCodeGen.genCode(self, ast, symbolTable, **kwargs)')
+    ctxv = b0['ctx'] if b0 else 'context'
+    ok = len(calls) == 1 and [k.arg for k in calls[0].keywords] == ['mib'] and norm(calls[0].keywords[0].value) == ctxv
     ctx_stores = [s for s in walk_no_nested(fn) if isinstance(s, (ast.Assign, ast.AugAssign)) and any(
-        'context' in [n.id for n in ast.walk(t) if isinstance(n, ast.Name)]
+        ctxv in [n.id for n in ast.walk(t) if isinstance(n, ast.Name)]
         for t in (s.targets if isinstance(s, ast.Assign) else [s.target])) and not (
         isinstance(s, ast.Assign) and isinstance(s.targets[0], ast.Tuple))]
     chk.ob('C03.R7', 'JsonCodeGen.genCode/renders-context-unchanged', ok and not ctx_stores, where(o.mod, fn),
